@@ -74,7 +74,7 @@ type ContractSet struct {
 
 var clauseKeywords = map[string]bool{
 	"func": true, "iface": true, "extern": true, "lemma": true, "cover": true,
-	"use": true, "ghost": true, "requires": true, "ensures": true, "modifies": true,
+	"use": true, "ghost": true, "requires": true, "ensures": true, "ensures-assumed": true, "modifies": true,
 	"decreases": true, "loop": true, "trusted": true, "inline": true, "noinline": true,
 	"implements": true, "tags": true, "params": true, "extra": true, "reveal": true,
 }
@@ -279,7 +279,7 @@ func (cs *ContractSet) parseFile(path string, pkgPath string, raw bool) error {
 					return err
 				}
 				cur.Ghosts = append(cur.Ghosts, GhostParam{name, x})
-			case "requires", "ensures":
+			case "requires", "ensures", "ensures-assumed":
 				label := readLabel()
 				x, err := readSx()
 				if err != nil {
